@@ -7,6 +7,7 @@ its factors by index with a stable sort, and factors with equal index only ever 
 different pads, whose relative order is fixed by the code).  Import-free.
 -/
 import OFV.Model.Symbolic
+import OFV.Model.C04
 
 namespace OFV
 namespace Model
@@ -108,6 +109,12 @@ def bkMajTerm (n : Nat) (t : MTerm) (c : GQ) : Op :=
 def bkMajorana (n : Nat) (A : MOp) : Op :=
   A.foldl (fun acc (t, c) => iadd tol acc (bkMajTerm n t c)) []
 
+/-- the exact regime of `bravyi_kitaev(FermionOperator)` (see `Model.C04.sumOk`): every `+=` of
+`inline_sum` deleted only exact zeros; evaluated by the driver on every generated input -/
+def bkFermionOk (n : Nat) (A : Op) : Bool := C04.sumOk tol (A.map fun tc => bkTerm tol n tc.1 tc.2)
+
+def bkMajoranaOk (n : Nat) (A : MOp) : Bool := C04.sumOk tol (A.map fun tc => bkMajTerm n tc.1 tc.2)
+
 /-! ### `fenwick_tree.py`: parent pointers and children lists built by the recursion -/
 
 structure Tree where
@@ -165,78 +172,90 @@ def bkTreeFermion (n : Nat) (A : Op) : Op :=
 /-- `complex(0, x)` = `0 + x * 1j` -/
 def cplx0 (x : GQ) : GQ := GQ.I * x
 
-/-- returns the case number (branch tag), the operator strings and the coefficients -/
-def srl (i j : Nat) (coef0 : GQ) (n : Nat) : Nat × List Term × List GQ :=
-  let coef := coef0 * ⟨mkRat 1 4, 0⟩
-  let two : GQ := ⟨2, 0⟩
+/-- which branch of the `if / elif` chain of `_seeley_richard_love` fires (cases 0-10 of the source;
+11 = none: the function then returns two empty lists) -/
+def srlTag (i j n : Nat) : Nat :=
   let ie := i % 2 == 0
   let je := j % 2 == 0
   let iInPj := (paritySet j).contains i
   let jInUi := (updateSet i n).contains j
+  if i == j then 0
+  else if ie && je then 1
+  else if !ie && je && !iInPj then 2
+  else if !ie && je && iInPj then 3
+  else if ie && !je && !iInPj && !jInUi then 4
+  else if ie && !je && !iInPj && jInUi then 5
+  else if ie && !je && iInPj && jInUi then 6
+  else if !ie && !je && !iInPj && !jInUi then 7
+  else if !ie && !je && iInPj && !jInUi then 8
+  else if !ie && !je && !iInPj && jInUi then 9
+  else if !ie && !je && iInPj && jInUi then 10
+  else 11
+
+/-- the body of each branch: operator strings and coefficients -/
+def srlBody (tag i j : Nat) (coef0 : GQ) (n : Nat) : List Term × List GQ :=
+  let coef := coef0 * ⟨mkRat 1 4, 0⟩
+  let two : GQ := ⟨2, 0⟩
   let al := alphaSet i j n
-  if i == j then
-    (0, [pad 3 (occupationSet i), []], [-coef * two, coef * two])
-  else if ie && je then
+  match tag with
+  | 0 => ([pad 3 (occupationSet i), []], [-coef * two, coef * two])
+  | 1 =>
     let left := pad 1 (uDiffA i j n) ++ pad 2 al ++ pad 3 (p0DiffA i j n)
-    let ops := [left ++ [(j, 2), (i, 1)], left ++ [(j, 1), (i, 2)], left ++ [(j, 1), (i, 1)], left ++ [(j, 2), (i, 2)]]
-    if i < j then (1, ops, [coef, -coef, cplx0 (-coef), cplx0 (-coef)])
-    else (1, ops, [cplx0 (-coef), cplx0 coef, -coef, -coef])
-  else if !ie && je && !iInPj then
+    ([left ++ [(j, 2), (i, 1)], left ++ [(j, 1), (i, 2)], left ++ [(j, 1), (i, 1)], left ++ [(j, 2), (i, 2)]],
+     if i < j then [coef, -coef, cplx0 (-coef), cplx0 (-coef)] else [cplx0 (-coef), cplx0 coef, -coef, -coef])
+  | 2 =>
     let left := pad 1 (uDiffA i j n) ++ pad 2 al
     let r1 := pad 3 (diff (p0Set i j) al)
     let r2 := pad 3 (diff (p2Set i j) al)
-    let ops := [left ++ [(j, 2), (i, 1)] ++ r1, left ++ [(j, 1), (i, 1)] ++ r1,
-                left ++ [(j, 1), (i, 2)] ++ r2, left ++ [(j, 2), (i, 2)] ++ r2]
-    if i < j then (2, ops, [coef, cplx0 (-coef), -coef, cplx0 (-coef)])
-    else (2, ops, [cplx0 (-coef), -coef, cplx0 coef, -coef])
-  else if !ie && je && iInPj then
+    ([left ++ [(j, 2), (i, 1)] ++ r1, left ++ [(j, 1), (i, 1)] ++ r1,
+      left ++ [(j, 1), (i, 2)] ++ r2, left ++ [(j, 2), (i, 2)] ++ r2],
+     if i < j then [coef, cplx0 (-coef), -coef, cplx0 (-coef)] else [cplx0 (-coef), -coef, cplx0 coef, -coef])
+  | 3 =>
     let left := pad 1 (uSet i j n)
     let r1 := pad 3 (diff (p0Set i j) [i])
     let r2 := pad 3 (diff (p2Set i j) [i])
-    (3, [left ++ [(j, 2), (i, 2)] ++ r1, left ++ [(j, 1), (i, 2)] ++ r1,
-         left ++ [(j, 1), (i, 1)] ++ r2, left ++ [(j, 2), (i, 1)] ++ r2],
-        [coef, cplx0 (-coef), coef, cplx0 coef])
-  else if ie && !je && !iInPj && !jInUi then
+    ([left ++ [(j, 2), (i, 2)] ++ r1, left ++ [(j, 1), (i, 2)] ++ r1,
+      left ++ [(j, 1), (i, 1)] ++ r2, left ++ [(j, 2), (i, 1)] ++ r2],
+     [coef, cplx0 (-coef), coef, cplx0 coef])
+  | 4 =>
     let left := pad 1 (uDiffA i j n) ++ pad 2 al
     let r1 := pad 3 (diff (p0Set i j) al)
     let r2 := pad 3 (diff (p1Set i j) al)
-    let ops := [left ++ [(j, 1), (i, 2)] ++ r1, left ++ [(j, 1), (i, 1)] ++ r1,
-                left ++ [(j, 2), (i, 1)] ++ r2, left ++ [(j, 2), (i, 2)] ++ r2]
-    if i < j then (4, ops, [-coef, cplx0 (-coef), coef, cplx0 (-coef)])
-    else (4, ops, [cplx0 coef, -coef, cplx0 (-coef), -coef])
-  else if ie && !je && !iInPj && jInUi then
+    ([left ++ [(j, 1), (i, 2)] ++ r1, left ++ [(j, 1), (i, 1)] ++ r1,
+      left ++ [(j, 2), (i, 1)] ++ r2, left ++ [(j, 2), (i, 2)] ++ r2],
+     if i < j then [-coef, cplx0 (-coef), coef, cplx0 (-coef)] else [cplx0 coef, -coef, cplx0 (-coef), -coef])
+  | 5 =>
     let x1 := diff (uSet i j n) [j]
     let x2 := diff x1 al
     let rp1 := pad 2 al ++ pad 3 (diff (p0Set i j) al)
     let rp2 := pad 3 (union (p1Set i j) [j])
-    (5, [pad 1 x2 ++ [(i, 2)] ++ rp1, pad 1 x2 ++ [(i, 1)] ++ rp1,
-         pad 1 x1 ++ [(i, 2)] ++ rp2, pad 1 x1 ++ [(i, 1)] ++ rp2],
-        [-coef, cplx0 (-coef), cplx0 coef, -coef])
-  else if ie && !je && iInPj && jInUi then
+    ([pad 1 x2 ++ [(i, 2)] ++ rp1, pad 1 x2 ++ [(i, 1)] ++ rp1,
+      pad 1 x1 ++ [(i, 2)] ++ rp2, pad 1 x1 ++ [(i, 1)] ++ rp2],
+     [-coef, cplx0 (-coef), cplx0 coef, -coef])
+  | 6 =>
     let left := pad 1 (diff (uSet i j n) [j])
     let right := pad 3 (union (p1Set i j) [j])
-    (6, [left ++ [(i, 1)], left ++ [(i, 2)], left ++ [(i, 2)] ++ right, left ++ [(i, 1)] ++ right],
-        [coef, cplx0 (-coef), cplx0 coef, -coef])
-  else if !ie && !je && !iInPj && !jInUi then
+    ([left ++ [(i, 1)], left ++ [(i, 2)], left ++ [(i, 2)] ++ right, left ++ [(i, 1)] ++ right],
+     [coef, cplx0 (-coef), cplx0 coef, -coef])
+  | 7 =>
     let left := pad 1 (uDiffA i j n) ++ pad 2 al
     let r1 := pad 3 (diff (p0Set i j) al)
     let r2 := pad 3 (diff (p1Set i j) al)
     let r3 := pad 3 (diff (p2Set i j) al)
     let r4 := pad 3 (diff (p3Set i j) al)
-    let ops := [left ++ [(j, 1), (i, 1)] ++ r1, left ++ [(j, 2), (i, 1)] ++ r2,
-                left ++ [(j, 1), (i, 2)] ++ r3, left ++ [(j, 2), (i, 2)] ++ r4]
-    if i < j then (7, ops, [cplx0 (-coef), coef, -coef, cplx0 (-coef)])
-    else (7, ops, [-coef, cplx0 (-coef), cplx0 coef, -coef])
-  else if !ie && !je && iInPj && !jInUi then
+    ([left ++ [(j, 1), (i, 1)] ++ r1, left ++ [(j, 2), (i, 1)] ++ r2,
+      left ++ [(j, 1), (i, 2)] ++ r3, left ++ [(j, 2), (i, 2)] ++ r4],
+     if i < j then [cplx0 (-coef), coef, -coef, cplx0 (-coef)] else [-coef, cplx0 (-coef), cplx0 coef, -coef])
+  | 8 =>
     let left := pad 1 (uSet i j n)
     let r1 := pad 3 (diff (p0Set i j) [i])
     let r2 := pad 3 (diff (p1Set i j) [i])
     let r3 := pad 3 (diff (p2Set i j) [i])
     let r4 := pad 3 (diff (p3Set i j) [i])
-    (8, [left ++ [(j, 1), (i, 2)] ++ r1, left ++ [(j, 2), (i, 2)] ++ r2,
-         left ++ [(j, 1), (i, 1)] ++ r3, left ++ [(j, 2), (i, 1)] ++ r4],
-        [cplx0 (-coef), coef, coef, cplx0 coef])
-  else if !ie && !je && !iInPj && jInUi then
+    ([left ++ [(j, 1), (i, 2)] ++ r1, left ++ [(j, 2), (i, 2)] ++ r2,
+      left ++ [(j, 1), (i, 1)] ++ r3, left ++ [(j, 2), (i, 1)] ++ r4],
+     [cplx0 (-coef), coef, coef, cplx0 coef])
+  | 9 =>
     let x1 := diff (uSet i j n) [j]
     let x2 := diff x1 al
     let x3 := diff (union x1 [i]) al
@@ -244,19 +263,23 @@ def srl (i j : Nat) (coef0 : GQ) (n : Nat) : Nat × List Term × List GQ :=
     let rp2 := pad 3 (diff (p0Set i j) al) ++ pad 2 al
     let rp3 := pad 3 (union (p1Set i j) [j])
     let rp4 := pad 3 (union (p3Set i j) [j])
-    (9, [pad 1 x2 ++ [(i, 2)] ++ rp1, pad 1 x3 ++ rp2, pad 1 x1 ++ [(i, 1)] ++ rp3, pad 1 x1 ++ [(i, 2)] ++ rp4],
-        [-coef, cplx0 (-coef), -coef, cplx0 coef])
-  else if !ie && !je && iInPj && jInUi then
+    ([pad 1 x2 ++ [(i, 2)] ++ rp1, pad 1 x3 ++ rp2, pad 1 x1 ++ [(i, 1)] ++ rp3, pad 1 x1 ++ [(i, 2)] ++ rp4],
+     [-coef, cplx0 (-coef), -coef, cplx0 coef])
+  | 10 =>
     let left := pad 1 (diff (uSet i j n) [j])
     let r1 := pad 3 (diff (p0Set i j) [i])
     let r2 := pad 3 (diff (p2Set i j) [i])
     let r3 := pad 3 (p1Set i j)
     let r4 := pad 3 (p3Set i j)
-    (10, [left ++ [(i, 2)] ++ r1, left ++ [(i, 1)] ++ r2, left ++ [(j, 3), (i, 1)] ++ r3, left ++ [(j, 3), (i, 2)] ++ r4],
-         [cplx0 (-coef), coef, -coef, cplx0 coef])
-  else
+    ([left ++ [(i, 2)] ++ r1, left ++ [(i, 1)] ++ r2, left ++ [(j, 3), (i, 1)] ++ r3, left ++ [(j, 3), (i, 2)] ++ r4],
+     [cplx0 (-coef), coef, -coef, cplx0 coef])
+  | _ =>
     -- no branch of the `elif` chain fires: the function returns two empty lists
-    (11, [], [])
+    ([], [])
+
+/-- returns the case number (branch tag), the operator strings and the coefficients -/
+def srl (i j : Nat) (coef0 : GQ) (n : Nat) : Nat × List Term × List GQ :=
+  (srlTag i j n, srlBody (srlTag i j n) i j coef0 n)
 
 /-- `_qubit_operator_creation(operators, coefficents)` -/
 def qubitOperatorCreation (ops : List Term) (coefs : List GQ) : Op :=
